@@ -394,6 +394,9 @@ func (c *Conn) Write(b []byte) (int, error) {
 			return done, opErr("write", syscall.EPIPE)
 		}
 		if done == len(b) {
+			if done > 0 {
+				simrt.NoteNetWrite()
+			}
 			return done, nil
 		}
 		room := len(b) - done
